@@ -225,7 +225,11 @@ func popErrBase(st *State) {
 // iteration that completes (falls through or continues) after a failed call has dropped the error.
 func (e *Exec) checkIterationErrors(st *State, li *loopInfo, ctx *Ctx) {
 	c := e.fi.Contract
-	if c == nil || len(c.Propagates) == 0 || ctx.frame.fi != e.fi || len(st.errBases) == 0 {
+	// (also for the loops of helpers that are executed through their bodies - filterList, filterMap: an iteration of theirs
+	// is an iteration of this function)
+	// library models (verifReplaceAllStringFunc) are exempt: the interpolation callback latches its first failure and goes on,
+	// and the failure is reported after the loop - that is proved by the invariants of that loop.
+	if c == nil || len(c.Propagates) == 0 || len(st.errBases) == 0 || (ctx.frame.fi != e.fi && strings.HasPrefix(ctx.frame.fi.Name, "verif")) {
 		return
 	}
 	base := st.errBases[len(st.errBases)-1]
